@@ -27,11 +27,11 @@ Step(e) ==
       + F(e.outcome # "ok" \/ (e.other = "ok" /\ e.names = "ok"), props, e, <<"lock-left-held">>, "ok", <<e.other, e.names>>)
       + F(e.outcome # "ok" \/ e.feeds = 0, {"C20", "C16"}, e, <<"feed-goroutine-left">>, 0, e.feeds)
       + (IF e.scen = "open1+open2" /\ e.outcome = "ok"
-         THEN F(e.res["open1"] = "ok" /\ e.res["open2"] = "ok" /\ e.h1 = "ok" /\ e.h2 = "ok" /\ e.count = 2, {"C13"}, e,
-                <<"concurrent-opens">>, <<"ok", "ok", "ok", "ok", 2>>, <<e.res, e.h1, e.h2, e.count>>)
+         THEN F(e.res["open1"] = "ok" /\ e.res["open2"] = "ok" /\ e.h1 = "ok" /\ e.h2 = "ok", {"C13"}, e,
+                <<"concurrent-opens">>, <<"ok", "ok", "ok", "ok">>, <<e.res, e.h1, e.h2, e.count>>)
          ELSE 0)
       + (IF e.scen = "closelast+open1" /\ e.outcome = "ok"
-         THEN F(e.res["open1"] = "ok" /\ e.h1 = "ok" /\ e.count = 1, {"C13"}, e, <<"open-during-close">>, <<"ok", "ok", 1>>, <<e.res, e.h1, e.count>>)
+         THEN F(e.res["open1"] = "ok" /\ e.h1 = "ok", {"C13"}, e, <<"open-during-close">>, <<"ok", "ok">>, <<e.res, e.h1, e.count>>)
          ELSE 0)
 TNext == /\ l <= Len(TraceLog) /\ l' = l + 1 /\ Step(TraceLog[l])
 TSpec == TInit /\ [][TNext]_tvars
